@@ -69,6 +69,25 @@ def name_sources(repo):
     return out
 
 
+def branch_chain(node):
+    """[(id of enclosing If, arm)] from the outermost to the innermost enclosing if-statement."""
+    chain_ = []
+    child, par = node, getattr(node, "_parent", None)
+    while par is not None and not isinstance(par, (ast.FunctionDef, ast.Lambda)):
+        if isinstance(par, ast.If):
+            arm = "body" if any(child is b for b in par.body) else "orelse" if any(child is b for b in par.orelse) else "test"
+            chain_.append((id(par), arm))
+        child, par = par, getattr(par, "_parent", None)
+    return list(reversed(chain_))
+
+
+def dominates_in_block(a, b):
+    """Statement a precedes b and is executed on every path that reaches b (structured code: a's if-chain is a
+    prefix of b's)."""
+    ca, cb = branch_chain(a), branch_chain(b)
+    return a.lineno < b.lineno and cb[:len(ca)] == ca
+
+
 def check_name_injective(ctx, repo):
     # is the name order-sensitive in the operand keys at its source?
     sources = name_sources(repo)
@@ -108,7 +127,7 @@ def check_name_injective(ctx, repo):
             # a freshening rebinding of func.__name__ before the store?
             fresh = None
             for n in walk_shallow(fn):
-                if isinstance(n, ast.Assign) and n.lineno < st.lineno and any(
+                if isinstance(n, ast.Assign) and dominates_in_block(n, st) and any(
                         isinstance(t, ast.Attribute) and t.attr == "__name__" and un(t.value) == fvar for t in n.targets):
                     reads_len = any(isinstance(c2, ast.Call) and (call_name(c2) or "") == "len" and c2.args and _is_numspace(c2.args[0])
                                     for c2 in ast.walk(n.value))
@@ -116,7 +135,7 @@ def check_name_injective(ctx, repo):
                                         for c2 in ast.walk(n.value))
                     if reads_len or reads_counter:
                         fresh = n
-                elif isinstance(n, ast.AugAssign) and n.lineno < st.lineno and isinstance(n.target, ast.Attribute) \
+                elif isinstance(n, ast.AugAssign) and dominates_in_block(n, st) and isinstance(n.target, ast.Attribute) \
                         and n.target.attr == "__name__" and un(n.target.value) == fvar:
                     if any(isinstance(c2, ast.Call) and (call_name(c2) or "") == "len" and c2.args and _is_numspace(c2.args[0])
                            for c2 in ast.walk(n.value)):
@@ -163,6 +182,44 @@ def _fx_name(ctx):
     sub = Ctx(repo, ctx.rule_id)
     check_name_injective(sub, repo)
     ctx.instances.extend(sub.instances)
+
+
+# --------------------------------------------------------------------------- who may write the name space
+@rule("C09.numspace-writers", props=["C09", "C10"], min_instances=3, mutants=[
+    ("callable multivectors memoised by name in numspace", ("codegen", "    return CodegenOutput(tuple(mv.keys()), func)\n\n\ndef do_codegen", "    mv.algebra.numspace.setdefault(f'custom_{mv.type_number}', func)\n    return CodegenOutput(tuple(mv.keys()), mv.algebra.numspace[f'custom_{mv.type_number}'])\n\n\ndef do_codegen")),
+])
+def numspace_writers(ctx):
+    """Only the three cache __getitem__ methods store into the algebra's name space (OWN): any other writer keys
+    generated functions by something that is not a cache entry."""
+    repo = ctx.repo
+    for mname, qual, fn in repo.all_functions():
+        aliases = set()
+        for n in walk_shallow(fn):
+            if isinstance(n, ast.Assign) and len(n.targets) == 1 and isinstance(n.targets[0], ast.Name) and _is_numspace(n.value):
+                aliases.add(n.targets[0].id)
+
+        def is_ns(e):
+            return _is_numspace(e) or (isinstance(e, ast.Name) and e.id in aliases)
+        for n in walk_shallow(fn):
+            site = None
+            if isinstance(n, (ast.Assign, ast.AugAssign)):
+                for t in (n.targets if isinstance(n, ast.Assign) else [n.target]):
+                    if isinstance(t, ast.Subscript) and is_ns(t.value):
+                        site = n
+            elif isinstance(n, ast.Call) and isinstance(n.func, ast.Attribute) and n.func.attr in ("setdefault", "update", "__setitem__") \
+                    and is_ns(n.func.value):
+                site = n
+            if site is None:
+                continue
+            c = f"{qual}#numspace-write"
+            if qual in GETITEMS:
+                ctx.ok(c, site, module=mname)
+            elif qual == "codegen.do_compile" and isinstance(site, ast.Call) is False and False:
+                ctx.ok(c, site, module=mname)
+            else:
+                ctx.violation(c, f"{qual} stores into the algebra's name space ({un(site)[:70]}): functions kept there are "
+                                 f"found again by name, so the name must identify a cache entry - here two different "
+                                 f"expressions/key orders that share the name get each other's compiled function", site, module=mname)
 
 
 # --------------------------------------------------------------------------- by-name twin
